@@ -275,6 +275,7 @@ class Engine:
         self.mulf = z3.Function("mulf", z3.IntSort(), z3.IntSort(), z3.IntSort())
         self.static_vals = {}
         self.var_range = {}
+        self.pending_lemmas = []
         self.exclusions = []  # (fn-name suffix, predicate(eng, st, args) -> cond, finding id)
         self._bcache = {}
         self._bkeep = []
@@ -398,8 +399,20 @@ class Engine:
         if is_conc(a) or is_conc(b):
             return zsimp(Z(a) * Z(b))
         if self.use_uf_mul:
-            return self.mulf(a, b)
+            p = self.mulf(a, b)
+            self.pending_lemmas.append(self.mul_facts(a, b, p))
+            return p
         return zsimp(a * b)
+
+    @staticmethod
+    def mul_facts(a, b, p):
+        """valid facts about p = a*b, instantiated for each uninterpreted product"""
+        ab = lambda x: z3.If(x >= 0, x, -x)
+        return z3.And(z3.Implies(a == 0, p == 0), z3.Implies(b == 0, p == 0),
+                      z3.Implies(a == 1, p == b), z3.Implies(b == 1, p == a),
+                      z3.Implies(a == -1, p == -b), z3.Implies(b == -1, p == -a),
+                      z3.Implies(z3.And(a != 0, b != 0), z3.And((p > 0) == ((a > 0) == (b > 0)), p != 0,
+                                                               ab(p) >= ab(a), ab(p) >= ab(b))))
 
     def tdiv(self, st, a, b):
         """truncating division and remainder (Rust `/` and `%`); b != 0 guaranteed by caller."""
@@ -418,8 +431,13 @@ class Engine:
         r = z3.Int(f"r!{next(self.fresh)}")
         A, B = Z(a), Z(b)
         absb = z3.If(B >= 0, B, -B)
+        absa = z3.If(A >= 0, A, -A)
+        absq = z3.If(q >= 0, q, -q)
         lemma = z3.Implies(B != 0, z3.And(A == self.mul(q, B) + r,
-                       z3.If(A >= 0, z3.And(r >= 0, r < absb), z3.And(r <= 0, r > -absb))))
+                       z3.If(A >= 0, z3.And(r >= 0, r < absb), z3.And(r <= 0, r > -absb)),
+                       # valid facts about truncating division (needed when `*` is uninterpreted)
+                       absq <= absa, z3.Or(q == 0, (q > 0) == ((A > 0) == (B > 0))),
+                       z3.Implies(absa < absb, q == 0), z3.Implies(B == 1, q == A), z3.Implies(B == -1, q == -A)))
         st.pc.append(lemma)
         self.solver.add(lemma)
         return q, r
@@ -852,6 +870,11 @@ class Engine:
             for s in stmts:
                 self.exec_stmt(st, fr, s)
             out = self.exec_term(st, fr, term)
+            if self.pending_lemmas:
+                for lem in self.pending_lemmas:
+                    st.pc.append(lem)
+                    self.solver.add(lem)
+                self.pending_lemmas = []
             # out: None (continue) | ("end", PathEnd) | ("fork", [(cond, fn(state)->None)])
             if out is None:
                 continue
